@@ -687,15 +687,21 @@ WRONG_KIND = {   # attribute kind -> literals of *another* kind
     # (the shapes the detection lemmas of Props/C03.lean exclude are generated too: a REAL that starts with the exponent
     #  letter or the point, an enumeration item / boolean without its dots, a string without apostrophes)
     "REAL": ["'abc'", ".T.", "#REF", "(1.5)", "E5", "e", ".E1", "-", "+.", "ABC"], "DEF_REAL": ["'abc'", ".F.", "E+5"],
-    "NUMBER": ["'abc'", ".T.", "#REF", "E5", "-"],
+    "NUMBER": ["'abc'", ".T.", "#REF", "E5", "-", ".", "ABC", ".E1", "*"],
     "STRING": ["5", "1.5", ".T.", "#REF", "(1)", "abc", "\"0F\""], "BOOLEAN": ["5", "'T'", "#REF", "1.5", "T", "TRUE", ".T"],
     "LOGICAL": ["5", "'U'", "#REF", "U", ".U"],
-    "BINARY": ["5", "'0F'", ".T.", "#REF", "0F", "\"0G\"", "\"0F"], "ENUM": ["5", "'RED'", "#REF", "1.5", "RED", ".RED", "RED."],
-    "ENTITY": ["5", "'#1'", ".T.", "1.5", "(#REF)"],
-    "AGG_INT": ["5", "'a'", "#REF"], "AGG_REAL": ["1.5", "'a'"], "AGG_STR": ["'a'", "5"], "AGG_ENT": ["#REF", "5"],
+    "BINARY": ["5", "'0F'", ".T.", "#REF", "0F", "\"0G\"", "\"0F", "X", "G0", "ZZ", "*"], "ENUM": ["5", "'RED'", "#REF", "1.5", "RED", ".RED", "RED."],
+    "ENTITY": ["5", "'#1'", ".T.", "1.5", "(#REF)", "ABC", "*", "#", "#X"],
+    "AGG_INT": ["5", "'a'", "#REF", "ABC", "*"], "AGG_REAL": ["1.5", "'a'"], "AGG_STR": ["'a'", "5"], "AGG_ENT": ["#REF", "5"],
     "AGG_ENTS": ["#REF", "'a'"], "AGG_SEL": ["#REF", "5"], "AGG_SELE": ["#REF", ".T."], "AGG_AGG": ["5", "'a'"],
-    "SELECT_E": ["'abc'", "5", ".T."], "SELECT_T": ["'abc'", ".T.", "#REF"], "SELECT_M": ["'abc'", ".T."],
+    "SELECT_E": ["'abc'", "5", ".T.", "*", "%"], "SELECT_T": ["'abc'", ".T.", "#REF", "*", "+5"], "SELECT_M": ["'abc'", ".T.", "%"],
 }
+# something behind a `$` (`$1`): the `$` is taken as the unset value, the rest is garbage CheckRemainingInput reports.  In
+# lenient mode the filler for a required INTEGER/REAL/NUMBER/STRING used to overwrite that report with USERMSG (exit 0);
+# generated once the source keeps it (fixes/C03-4, model switch fillerKeepsError; set by checks/c03.py)
+DOLLAR_JUNK = False
+DOLLAR_JUNK_LITS = ["$1", "$abc", "$ 1", "$$"]
+DOLLAR_JUNK_KINDS = ("INTEGER", "REAL", "NUMBER", "STRING", "BOOLEAN", "LOGICAL", "ENUM", "BINARY", "ENTITY")
 AGG_ELEM_WRONG = {"AGG_INT": ["'x'", ".T.", "#REF"], "AGG_REAL": ["'x'", ".T."], "AGG_STR": ["5", ".T."],
                   "AGG_ENT": ["5", "'x'"], "AGG_ENTS": ["5", ".T."]}
 
@@ -768,7 +774,8 @@ def violations(rng, schema, pop, per_class=1, string_delims=False, missing_elem=
     someref = f"#{ids[0]}"
     # wrong literal kind
     for (ii, pi, ai, a) in positions(lambda a, v, i: a.kind in WRONG_KIND and v[0] != "null"):
-        lit = rng.choice(WRONG_KIND[a.kind]).replace("#REF", someref)
+        lits = WRONG_KIND[a.kind] + (DOLLAR_JUNK_LITS if DOLLAR_JUNK and a.kind in DOLLAR_JUNK_KINDS else [])
+        lit = rng.choice(lits).replace("#REF", someref)
         out.append(Violation("wrong_kind", pop[ii].id, replaced(ii, _set_val(pop[ii], pi, ai, ("tok", lit))),
                              where(pop[ii], pi, ai, a) + ":" + re.sub(r"[^A-Za-z0-9#'.()\"]", "", lit)[:6]))
     if string_delims:
